@@ -17,3 +17,39 @@ package crypto
 //@   loop 0 invariant [count] numOfSigs == msN(multiSig)
 //@   loop 0 invariant [ok] decMSok(old(bytes(multiSignature)))
 //@   loop 0 invariant forall j int :: 0 <= j && j < i ==> msHas(multiSig, j) && sigVerify(pms.PublicKeys[j], bytes(msg), msSig(multiSig, j))
+
+// the concrete signature list: every entry counts, and entry i is returned as stored (a nil
+// entry is reported as missing) - padding entries are entries
+//@ func (MultiSignature).NumOfSigs
+//@   props C39
+//@   panics_never
+//@   modifies nothing
+//@   ensures [counts-every-entry] result == len(ms.Sigs)
+//@ func (MultiSignature).GetSignatureByIndex
+//@   props C39
+//@   modifies nothing
+//@   ensures [entry-as-stored] 0 <= i && i < len(ms.Sigs) ==> sig == ms.Sigs[i] && found == (ms.Sigs[i] != nil)
+//@   ensures [beyond-the-list-none] i > len(ms.Sigs) ==> !found && sig == nil
+
+// single keys: the verdict is exactly the audited library's (tendermint's secp256k1 / ed25519
+// PubKey.VerifyBytes, which includes e.g. the low-S rule) for the same key bytes, message and signature
+//@ pure libSecpVerify(pk Secp256k1PublicKey, msg Bytes, sig Bytes) bool
+//@ pure libEdVerify(pk Ed25519PublicKey, msg Bytes, sig Bytes) bool
+//@ func github.com/tendermint/tendermint/crypto/secp256k1.(PubKeySecp256k1).VerifyBytes
+//@   trusted external library (signature verification)
+//@   params pubKey msg sig
+//@   pure_fn
+//@   ensures result == libSecpVerify(pubKey, bytes(msg), bytes(sig))
+//@ func github.com/tendermint/tendermint/crypto/ed25519.(PubKeyEd25519).VerifyBytes
+//@   trusted external library (signature verification)
+//@   params pubKey msg sig
+//@   pure_fn
+//@   ensures result == libEdVerify(pubKey, bytes(msg), bytes(sig))
+//@ func (Secp256k1PublicKey).VerifyBytes
+//@   props C39
+//@   modifies nothing
+//@   ensures [library-verdict] result == libSecpVerify(pub, bytes(msg), bytes(sig))
+//@ func (Ed25519PublicKey).VerifyBytes
+//@   props C39
+//@   modifies nothing
+//@   ensures [library-verdict] result == libEdVerify(pub, bytes(msg), bytes(sig))
